@@ -670,6 +670,306 @@ def _precedence_pairs(kinds) -> List[Tuple[str, str]]:
 # R7 conflict table
 # ---------------------------------------------------------------------------
 
+class _Val:
+    """Abstract value: text read off a template segment (an attribute of a
+    node that its constructor derives from the segment, the `segment`
+    parameter, or a projection of those).  `deps`: which of the two compared
+    segments it is read from ({'self'}, {'other'} or both); `inj`: it is the
+    whole raw segment (so two different segments give two different values);
+    `nonnull`: True when it cannot be None."""
+
+    def __init__(self, deps, inj=False, nonnull=None):
+        self.deps = frozenset(deps)
+        self.inj = inj
+        self.nonnull = nonnull
+
+    def __repr__(self):
+        return '<text of %s segment%s>' % ('/'.join(sorted(self.deps)), ', whole' if self.inj else '')
+
+
+class _VBool:
+    """A truth value that depends on the TEXT of the compared segments, not
+    only on their kinds; `exprs` are the tests that decide it."""
+
+    def __init__(self, exprs):
+        self.exprs = tuple(dict.fromkeys(exprs))
+
+    def __repr__(self):
+        return 'value-dependent(%s)' % '; '.join(self.exprs)
+
+
+def _segment_text_attrs(p, init: Func) -> Tuple[Set[str], Set[str]]:
+    """(attributes of a node whose value the constructor derives from the text
+    of the segment, those that ARE the segment) -- a forward closure from the
+    segment parameter over the constructor's assignments, loop targets and
+    `self.<attr>.append(...)` calls."""
+    params = init.params()
+    if len(params) < 2:
+        raise UnknownIdiom('%s: signature %s' % (init.qual, params))
+    seg = params[1]
+    tainted = {seg}
+
+    def mentions_tainted(e) -> bool:
+        return any(isinstance(n, ast.Name) and n.id in tainted for n in ast.walk(e))
+
+    text: Set[str] = set()
+    whole: Set[str] = set()
+    other_store: Set[str] = set()
+    changed = True
+    while changed:
+        changed = False
+        for n in walk_self(init.node):
+            pairs = []
+            if isinstance(n, (ast.Assign, ast.AnnAssign, ast.AugAssign)) and getattr(n, 'value', None) is not None:
+                pairs = [(t, n.value) for t in (n.targets if isinstance(n, ast.Assign) else [n.target])]
+            elif isinstance(n, ast.For):
+                pairs = [(n.target, n.iter)]
+            elif isinstance(n, ast.Call) and isinstance(n.func, ast.Attribute) and n.func.attr in ('append', 'extend', 'add', 'insert') \
+                    and _self_attr(n.func.value) is not None and any(mentions_tainted(a) for a in n.args):
+                if _self_attr(n.func.value) not in text:
+                    text.add(_self_attr(n.func.value))
+                    changed = True
+            for t, v in pairs:
+                if not mentions_tainted(v):
+                    if _self_attr(t) is not None:
+                        other_store.add(_self_attr(t))
+                    continue
+                for sub in ast.walk(t):
+                    if isinstance(sub, ast.Name) and isinstance(sub.ctx, ast.Store) and sub.id not in tainted:
+                        tainted.add(sub.id)
+                        changed = True
+                a = _self_attr(t)
+                if a is not None and a not in text:
+                    text.add(a)
+                    changed = True
+                if a is not None and isinstance(v, ast.Name) and v.id == seg and isinstance(n, (ast.Assign, ast.AnnAssign)):
+                    whole.add(a)
+    whole -= other_store
+    return text, whole
+
+
+class _ValEval(H.Evaluator):
+    """The R2/R7 mini-evaluator extended by two abstract values: `_Val` (text
+    of a segment) and `_VBool` (a test on such text).  Kinds still evaluate to
+    constants; anything it cannot read is still UNK."""
+
+    TEXT_FUNCS = ('len', 'str', 'tuple', 'list', 'sorted', 'set', 'frozenset', 'repr')
+    REGEX_METHODS = {'sub': True, 'subn': True, 'findall': True, 'split': True, 'match': None, 'search': None, 'fullmatch': None}
+
+    def __init__(self, where, p, f: Func, text_attrs: Set[str], whole_attrs: Set[str], call_hook=None):
+        super().__init__(where, call_hook=call_hook)
+        self.p = p
+        self.f = f
+        self.text_attrs = text_attrs
+        self.whole_attrs = whole_attrs
+
+    @staticmethod
+    def _concrete(v) -> bool:
+        return v is None or isinstance(v, (str, int, bool, bytes)) or \
+            (isinstance(v, (tuple, list)) and all(_ValEval._concrete(x) for x in v))
+
+    def _textual(self, vs) -> bool:
+        """all values are text / constants, at least one is text"""
+        return all(isinstance(v, _Val) or self._concrete(v) for v in vs) and any(isinstance(v, _Val) for v in vs)
+
+    @staticmethod
+    def _deps(vs) -> frozenset:
+        out = frozenset()
+        for v in vs:
+            if isinstance(v, _Val):
+                out |= v.deps
+        return out
+
+    def _Attribute(self, e, env):
+        v = self.ev(e.value, env)
+        if isinstance(v, H.Rec) and '_side' in v.attrs and e.attr in self.text_attrs:
+            known = v.attrs.get(e.attr, H.UNK)
+            if known is None:
+                return None
+            is_whole = e.attr in self.whole_attrs
+            return _Val({v.attrs['_side']}, inj=is_whole, nonnull=True if (known is H.NONNULL or is_whole) else None)
+        if isinstance(v, _Val):
+            return _Val(v.deps)
+        return super()._Attribute(e, env)
+
+    def _Subscript(self, e, env):
+        v = self.ev(e.value, env)
+        if not isinstance(v, _Val):
+            return H.UNK
+        parts = [e.slice.lower, e.slice.upper, e.slice.step] if isinstance(e.slice, ast.Slice) else [e.slice]
+        idx = [self.ev(x, env) for x in parts if x is not None]
+        if all(isinstance(i, _Val) or self._concrete(i) for i in idx):
+            return _Val(v.deps | self._deps(idx))
+        return H.UNK
+
+    def _seq(self, e, env, make):
+        vs = [self.ev(x, env) for x in e.elts]
+        if any(v is H.UNK or isinstance(v, _VBool) for v in vs):
+            return H.UNK
+        if any(isinstance(v, _Val) for v in vs):
+            deps = self._deps(vs)
+            return _Val(deps, inj=len(deps) == 1 and any(isinstance(v, _Val) and v.inj for v in vs), nonnull=True)
+        return make(vs)
+
+    def _Tuple(self, e, env):
+        return self._seq(e, env, tuple)
+
+    def _List(self, e, env):
+        return self._seq(e, env, list)
+
+    def _comp(self, e, env, elt):
+        if len(e.generators) == 1 and not e.generators[0].is_async and isinstance(e.generators[0].target, (ast.Name, ast.Tuple)):
+            g = e.generators[0]
+            it = self.ev(g.iter, env)
+            if isinstance(it, _Val):
+                env2 = dict(env)
+                for nm in ast.walk(g.target):
+                    if isinstance(nm, ast.Name):
+                        env2[nm.id] = _Val(it.deps)
+                conds = [self.ev(c, env2) for c in g.ifs]
+                v = self.ev(elt, env2)
+                if v is H.UNK or any(c is H.UNK for c in conds) or isinstance(v, _VBool):
+                    return H.UNK
+                return _Val(it.deps | self._deps([v]), nonnull=True)
+        return super()._comp(e, env, elt)
+
+    def _truthy(self, v, text):
+        """concrete bool | _VBool | UNK for the truth of v"""
+        if v is H.UNK:
+            return H.UNK
+        if isinstance(v, _VBool):
+            return v
+        if isinstance(v, _Val):
+            return _VBool(['truth of ' + text])
+        return H.truth(v)
+
+    def _UnaryOp(self, e, env):
+        if isinstance(e.op, ast.Not):
+            t = self._truthy(self.ev(e.operand, env), short(e.operand, 80))
+            if t is H.UNK or isinstance(t, _VBool):
+                return t
+            return not t
+        return super()._UnaryOp(e, env)
+
+    def _BoolOp(self, e, env):
+        is_and = isinstance(e.op, ast.And)
+        maybe: List[str] = []
+        last = H.UNK
+        for sub in e.values:
+            v = self.ev(sub, env)
+            t = self._truthy(v, short(sub, 80))
+            if t is H.UNK:
+                return H.UNK
+            if isinstance(t, _VBool):
+                maybe += list(t.exprs)
+                continue
+            last = v
+            if is_and and not t:
+                return False if maybe else v      # falsy whatever the text says
+            if not is_and and t:
+                return True if maybe else v       # truthy whatever the text says
+        return _VBool(maybe) if maybe else last
+
+    def _IfExp(self, e, env):
+        t = self._truthy(self.ev(e.test, env), short(e.test, 80))
+        if isinstance(t, _VBool):
+            a = self._truthy(self.ev(e.body, env), short(e.body, 80))
+            b = self._truthy(self.ev(e.orelse, env), short(e.orelse, 80))
+            if a is H.UNK or b is H.UNK:
+                return H.UNK
+            if not isinstance(a, _VBool) and not isinstance(b, _VBool) and a == b:
+                return a
+            return _VBool(list(t.exprs) + [x for v in (a, b) if isinstance(v, _VBool) for x in v.exprs])
+        if t is H.UNK:
+            return H.UNK
+        return self.ev(e.body if t else e.orelse, env)
+
+    def _Compare(self, e, env):
+        vs = [self.ev(x, env) for x in [e.left] + list(e.comparators)]
+        if any(v is H.UNK for v in vs):
+            return H.UNK
+        if not any(isinstance(v, (_Val, _VBool)) for v in vs):
+            return super()._Compare(e, env)
+        if len(e.ops) != 1 or any(isinstance(v, _VBool) for v in vs):
+            return H.UNK
+        op, (l, r) = e.ops[0], vs
+        if isinstance(op, (ast.Is, ast.IsNot)):
+            val, oth = (l, r) if isinstance(l, _Val) else (r, l)
+            if oth is None and val.nonnull is True:
+                return isinstance(op, ast.IsNot)
+            return H.UNK
+        if not self._textual(vs):
+            return H.UNK
+        if isinstance(op, (ast.Eq, ast.NotEq)) and isinstance(l, _Val) and isinstance(r, _Val) and l.inj and r.inj \
+                and len(l.deps) == 1 and len(r.deps) == 1 and l.deps != r.deps:
+            # the whole raw segments of the two nodes: different by the caller's contract (conflicts_with is only asked about a
+            # segment that does not match this node)
+            return isinstance(op, ast.NotEq)
+        return _VBool([short(e, 160)])
+
+    def _regex_const(self, e) -> bool:
+        if not isinstance(e, ast.Name):
+            return False
+        v = self.f.module.consts.get(e.id)
+        return isinstance(v, ast.Call) and self.p.resolve_expr(self.f.module, v.func) == 're.compile'
+
+    def _Call(self, e, env):
+        if self.call_hook is not None:
+            r = self.call_hook(e, env)
+            if r is not NotImplemented:
+                return r
+        if e.keywords or any(isinstance(a, ast.Starred) for a in e.args):
+            return super()._Call(e, env)
+        if isinstance(e.func, ast.Attribute):
+            if self._regex_const(e.func.value) and e.func.attr in self.REGEX_METHODS:
+                args = [self.ev(a, env) for a in e.args]
+                if self._textual(args):
+                    return _Val(self._deps(args), nonnull=self.REGEX_METHODS[e.func.attr])
+                return H.UNK
+            recv = self.ev(e.func.value, env)
+            if isinstance(recv, _Val):
+                args = [self.ev(a, env) for a in e.args]
+                if all(isinstance(a, _Val) or self._concrete(a) for a in args):
+                    return _Val(recv.deps | self._deps(args))     # a str/list method on segment text
+                return H.UNK
+        if isinstance(e.func, ast.Name) and e.func.id not in env and len(e.args) == 1:
+            a = self.ev(e.args[0], env)
+            if isinstance(a, _Val):
+                if e.func.id in self.TEXT_FUNCS and self.p.resolve_callable(self.f, e.func) == 'builtins.' + e.func.id:
+                    return _Val(a.deps, nonnull=True)
+                if e.func.id == 'bool':
+                    return _VBool(['truth of ' + short(e.args[0], 80)])
+                return H.UNK
+            if isinstance(a, _VBool):
+                return a if e.func.id == 'bool' else H.UNK
+        return super()._Call(e, env)
+
+
+def _cell_outcomes(E: '_ValEval', where: str, stmts, env, forks: List[str]) -> List[object]:
+    """Every value the statements can return: statements are run by the
+    straight-line interpreter; an `if` whose test depends on segment text
+    forks (both arms are followed, the test is recorded)."""
+    I = H.Interp(E, where)
+    stmts = list(stmts)
+    for i, s in enumerate(stmts):
+        if isinstance(s, ast.If):
+            t = E._truthy(E.ev(s.test, env), short(s.test, 80))
+            if t is H.UNK:
+                raise UnknownIdiom('%s: cannot evaluate the test `%s`' % (where, short(s.test, 80)))
+            rest = stmts[i + 1:]
+            if isinstance(t, _VBool):
+                forks.extend(x for x in t.exprs if x not in forks)
+                return _cell_outcomes(E, where, list(s.body) + rest, dict(env), forks) + \
+                    _cell_outcomes(E, where, list(s.orelse) + rest, dict(env), forks)
+            return _cell_outcomes(E, where, list(s.body if t else s.orelse) + rest, env, forks)
+        kind, val = I.stmt(s, env)
+        if kind == 'return':
+            return [val]
+        if kind == 'raise':
+            return []
+    return [None]
+
+
 def r7_conflict_table(run):
     p = run.project
     f = p.func(NODE + '.conflicts_with')
@@ -699,17 +999,51 @@ def r7_conflict_table(run):
             table[(a, b)] = val
     run.extra['c01_conflict_table'] = {'%s x %s' % k: repr(v) for k, v in sorted(table.items())}
 
+    def value_dependent(a, b, want, why, W) -> bool:
+        """The cell is not a constant of the two kinds.  Read what it depends
+        on: text of the segments (`_Val`), tests on such text (`_VBool`).  A
+        cell that must be unconditional and is decided by the text is a
+        violation; anything this reading does not understand stays an unknown
+        idiom."""
+        text_attrs, whole_attrs = _segment_text_attrs(p, p.func(NODE + '.__init__'))
+        flags = ('is_var', 'is_complex', 'num_fields')
+        text_attrs -= set(flags)
+        VE = _ValEval(f.qual, p, f, text_attrs, whole_attrs, call_hook=hook)
+        env = {params[0]: H.Rec(a, _side='self', **kinds[a].attrs), '$other': H.Rec(b, _side='other', **kinds[b].attrs),
+               seg: _Val({'other'}, inj=True, nonnull=True)}
+        forks: List[str] = []
+        try:
+            outs = _cell_outcomes(VE, f.qual, f.node.body, env, forks)
+        except UnknownIdiom:
+            return False
+        if not outs or any(o is H.UNK or isinstance(o, _Val) for o in outs):
+            return False
+        decided_by = list(forks) + [x for o in outs if isinstance(o, _VBool) for x in o.exprs]
+        const = [H.truth(o) for o in outs if not isinstance(o, _VBool)]
+        unconditional = not decided_by and all(c == want for c in const)
+        run.extra.setdefault('c01_conflict_value_dependent', {})['%s x %s' % (a, b)] = decided_by
+        run.check(unconditional or (len(const) == len(outs) and all(c == want for c in const)),
+                  'conflicts_with(%s node, %s segment) is %s for EVERY pair of different segments of these kinds (%s); it must not be '
+                  'decided by the text of the segments' % (a, b, want, why), f,
+                  'conflict-table[%s,%s] decided by: %s' % (a, b, '; '.join(decided_by) or 'the kinds'), where=f.loc(),
+                  witness=['the answer depends on: %s' % x for x in decided_by] +
+                          ['returned values: %s' % ', '.join(sorted({repr(o) for o in outs}))], runtime_witness=W)
+        return True
+
     def cell(a, b, want, why, W):
         v = table[(a, b)]
         if v is H.UNK:
+            if (a, b) == ('single', 'single') and value_dependent(a, b, want, why, W):
+                return
             raise UnknownIdiom('%s: the (%s, %s) cell is value-dependent: %s' % (f.qual, a, b, 'not a constant'))
         run.check(H.truth(v) == want, 'conflicts_with(%s node, %s segment) is %s: %s' % (a, b, want, why), f,
                   'conflict-table[%s,%s] = %r' % (a, b, v), where=f.loc(), runtime_witness=W)
 
     cell('single', 'single', True,
          'the generator emits code for exactly one single-field node per level',
-         'add_route("/a/{x}") then add_route("/a/{y}/b") both accepted: the first lookup trips the generator\'s own '
-         'assertion (internal error) or one route masks the other')
+         'add_route("/a/{x}") then add_route("/a/{y}/b") -- or "/teams/{id:int(min=1)}" then "/teams/{id:int(min=10)}/audit" -- both '
+         'accepted: insert() creates a second single-field sibling, the first lookup trips the generator\'s own assertion (internal '
+         'error) or one route masks the other')
     for a in ('literal', 'affix', 'multi', 'single'):
         for b in ('literal', 'affix', 'multi', 'single'):
             if 'literal' in (a, b):
